@@ -15,11 +15,11 @@ use serde_json::json;
 
 pub const ID: &str = "C14";
 
-pub const RULE: &str = "cases = (text parser, string, input kind). Parsers: int(r), digits(r) for r in {2,8,10,16,36}; ascii::ident, unicode ident; ascii/unicode keyword(k) for k in {a, Z7, _, fa, éa}; whitespace(), inline_whitespace(), newline(); just('a').padded(), int(10).padded(); regex(p) at token offset k for generated patterns p. Strings: EVERY string up to a length bound over the 12-symbol alphabet {0 1 7 a Z f _ ' ' \\r \\n é .} and over the line-terminator alphabet {\\t \\x0B \\x0C \\u{85} \\u{2028} \\u{2029} \\r \\n ' ' a 0 z}; EVERY Unicode scalar value c in the contexts c, ac, ac_, 1c, 0c, ' 'c, \\rc, cac (classification is per character, so this enumerates the whole classification table of each parser); random Unicode strings drawn from ASCII / Latin-1 / BMP / astral ranges with XID_Start, XID_Continue, digits of other scripts, all White_Space and all eight terminators over-represented. Input kinds: &str always, &[u8] for ASCII strings. Each parser p is run as p.map_with(|o, e| (o, e.slice())).then(any().repeated().to_slice()). Oracle: independent recognisers longest_prefix(p, s) written with char::is_digit / is_ascii_* / char::is_whitespace / unicode_ident::is_xid_* and the table of the eight terminators: accept iff the recogniser matches a prefix, matched extent == that prefix, remainder == the rest, both as the SAME MEMORY as the caller's buffer (pointer offset and length), and for int / ident / keyword / regex the returned slice is that extent too. keyword(k) accepts iff the identifier starting there is exactly k. &[u8] results must equal the &str results on ASCII strings. regex(p) at offset k must equal an anchored regex-automata search on the suffix alone (a fresh Regex over s[k..]), cross-checked by a small backtracking matcher written for the generated pattern language. NON-TRIVIAL = the string contains a boundary character for the parser under test (a leading 0 or a non-digit after digits for int/digits; an identifier-continue character right after the keyword, or a non-ASCII letter/digit for ident/keyword; CR before LF, or a terminator next to a non-terminator for newline; whitespace adjacent to a non-whitespace character for whitespace/padded; a regex whose match is empty or stops before the end of the input); cases are distinct by construction in the enumerated tiers (counted, not hashed) and hashed in the random tier.";
+pub const RULE: &str = "cases = (text parser, string, input kind). Parsers: int(r), digits(r) for r in {2,8,10,16,36}; ascii::ident, unicode ident; ascii/unicode keyword(k) for k in {a, Z7, _, fa, éa}; whitespace(), inline_whitespace(), newline(); just('a').padded(), int(10).padded(); regex(p) at token offset k for generated patterns p. Strings: EVERY string up to a length bound over the 12-symbol alphabet {0 1 7 a Z f _ ' ' \\r \\n é .} and over the line-terminator alphabet {\\t \\x0B \\x0C \\u{85} \\u{2028} \\u{2029} \\r \\n ' ' a 0 z}; EVERY Unicode scalar value c in the contexts c, ac, ac_, 1c, 0c, ' 'c, \\rc, cac (classification is per character, so this enumerates the whole classification table of each parser); random Unicode strings drawn from ASCII / Latin-1 / BMP / astral ranges with XID_Start, XID_Continue, digits of other scripts, all White_Space and all eight terminators over-represented. Input kinds: &str always, &[u8] for ASCII strings. Each parser p is run as p.map_with(|o, e| (o, e.slice())).then(any().repeated().to_slice()). Oracle: independent recognisers longest_prefix(p, s) written with char::is_digit / is_ascii_* / char::is_whitespace / unicode_ident::is_xid_* and the table of the eight terminators: accept iff the recogniser matches a prefix, matched extent == that prefix, remainder == the rest, both as the SAME MEMORY as the caller's buffer (pointer offset and length), and for int / ident / keyword / regex the returned slice is that extent too. keyword(k) accepts iff the identifier starting there is exactly k. &[u8] results must equal the &str results on ASCII strings. regex(p) at offset k must equal an anchored regex-automata search at that position of the input (a fresh Regex; patterns incl. the zero-width assertions ^ $ \\b \\B (?m:^) (?m:$) \\A \\z, for which the text before the position matters), cross-checked by a small backtracking matcher written for the generated pattern language. NON-TRIVIAL = the string contains a boundary character for the parser under test (a leading 0 or a non-digit after digits for int/digits; an identifier-continue character right after the keyword, or a non-ASCII letter/digit for ident/keyword; CR before LF, or a terminator next to a non-terminator for newline; whitespace adjacent to a non-whitespace character for whitespace/padded; a regex whose match is empty or stops before the end of the input); cases are distinct by construction in the enumerated tiers (counted, not hashed) and hashed in the random tier.";
 
 pub const ASSUMPTIONS: &[&str] = &[
     "the recognisers in this file (std char predicates; unicode_ident for XID_Start / XID_Continue, which is also the table chumsky uses, so the Unicode VERSION of the identifier tables is not independently checked)",
-    "regex: regex-automata's own anchored search on the suffix is the specification (the statement says 'what an anchored regex search matches at that position'); patterns are look-around free so a search on the suffix equals a search at that position",
+    "regex: regex-automata's own anchored search at that position of the whole input is the specification (the statement says 'what an anchored regex search matches at that position'): for assertion-free patterns that equals a search over the suffix alone, for patterns with ^ $ \\b \\B (?m:^) (?m:$) \\A \\z the text before the position is visible to the assertions",
     "&[u8] is compared with &str only on ASCII strings (bytes >= 0x80 are outside the statement)",
 ];
 
@@ -163,12 +163,15 @@ pub fn longest_prefix(tp: &TP, s: &[char]) -> Option<(usize, usize, usize)> {
             if s.len() < k {
                 return None;
             }
-            // the specification: an anchored search over the suffix alone
-            let suffix: String = s[k..].iter().collect();
+            // the specification: an anchored search AT THAT POSITION of the input (look-behind assertions --
+            // ^, \b, \B, (?m:^) -- see the text before the position; for assertion-free patterns this equals
+            // a search over the suffix alone)
+            let full: String = s.iter().collect();
+            let kb: usize = s[..k].iter().map(|c| c.len_utf8()).sum();
             let rx = regex_automata::meta::Regex::new(&re.render()).expect("generated pattern compiles");
-            let inp = regex_automata::Input::new(suffix.as_str()).anchored(regex_automata::Anchored::Yes);
+            let inp = regex_automata::Input::new(full.as_str()).range(kb..).anchored(regex_automata::Anchored::Yes);
             let m = rx.find(inp)?;
-            let nchars = suffix[..m.end()].chars().count();
+            let nchars = full[kb..m.end()].chars().count();
             Some((k, k + nchars, k + nchars))
         }
     }
@@ -187,6 +190,13 @@ pub enum Re {
     Star(Box<Re>, bool),
     Plus(Box<Re>, bool),
     Opt(Box<Re>, bool),
+    /// zero-width assertion: 0 ^, 1 $, 2 \b, 3 \B, 4 (?m:^), 5 (?m:$), 6 \A, 7 \z
+    Assert(u8),
+}
+
+const ASSERTS: [&str; 8] = ["^", "$", "\\b", "\\B", "(?m:^)", "(?m:$)", "\\A", "\\z"];
+fn is_word(c: char) -> bool {
+    c.is_alphanumeric() || c == '_'
 }
 
 fn esc(c: char, out: &mut String) {
@@ -207,6 +217,7 @@ impl Re {
         match self {
             Re::Lit(c) => esc(*c, o),
             Re::Dot => o.push('.'),
+            Re::Assert(a) => o.push_str(ASSERTS[*a as usize % 8]),
             Re::Class(rs, neg) => {
                 o.push('[');
                 if *neg {
@@ -260,7 +271,7 @@ impl Re {
             Re::Lit(_) | Re::Dot | Re::Class(..) => false,
             Re::Seq(v) => v.iter().all(|x| x.nullable()),
             Re::Alt(v) => v.iter().any(|x| x.nullable()),
-            Re::Star(..) | Re::Opt(..) => true,
+            Re::Star(..) | Re::Opt(..) | Re::Assert(_) => true,
             Re::Plus(x, _) => x.nullable(),
         }
     }
@@ -270,6 +281,18 @@ impl Re {
         match self {
             Re::Lit(c) => i < s.len() && s[i] == *c && k(i + 1),
             Re::Dot => i < s.len() && s[i] != '\n' && k(i + 1),
+            Re::Assert(a) => {
+                let wb = (i > 0 && is_word(s[i - 1])) != (i < s.len() && is_word(s[i]));
+                let ok = match *a % 8 {
+                    0 | 6 => i == 0,
+                    1 | 7 => i == s.len(),
+                    2 => wb,
+                    3 => !wb,
+                    4 => i == 0 || s[i - 1] == '\n',
+                    _ => i == s.len() || s[i] == '\n',
+                };
+                ok && k(i)
+            }
             Re::Class(rs, neg) => i < s.len() && (rs.iter().any(|(a, b)| *a <= s[i] && s[i] <= *b) != *neg) && k(i + 1),
             Re::Seq(v) => match v.split_first() {
                 None => k(i),
@@ -299,10 +322,11 @@ impl Re {
             }
         }
     }
-    pub fn match_len(&self, s: &[char]) -> Option<usize> {
+    /// length of the match starting at position `from` of `s` (assertions see the text before `from`)
+    pub fn match_len(&self, s: &[char], from: usize) -> Option<usize> {
         let mut end = None;
-        self.m(s, 0, &mut |j| {
-            end = Some(j);
+        self.m(s, from, &mut |j| {
+            end = Some(j - from);
             true
         });
         end
@@ -311,9 +335,10 @@ impl Re {
 
 fn gen_re(t: &mut Tape, depth: u32, alpha: &[char]) -> Re {
     let atom = |t: &mut Tape| -> Re {
-        match t.weighted(&[6, 1, 3]) {
+        match t.weighted(&[6, 1, 3, 2]) {
             0 => Re::Lit(alpha[t.pick(alpha.len())]),
             1 => Re::Dot,
+            3 => Re::Assert(t.pick(8) as u8),
             _ => {
                 let n = 1 + t.pick(2);
                 let mut rs = vec![];
@@ -574,7 +599,7 @@ pub fn check_one<'s>(tp: &TP, chars: &[char], s: &'s str, ps: &StrP<'s>, pb: Opt
         // oracle cross-check: the backtracking matcher written for the generated pattern language
         let k = *k as usize;
         if chars.len() >= k {
-            let mine = re.match_len(&chars[k..]);
+            let mine = re.match_len(chars, k);
             let theirs = want.as_ref().map(|w| s[w.extent.0..w.extent.0 + w.extent.1].chars().count());
             if mine != theirs {
                 l.bump("regex_oracle_crosscheck_disagreements");
@@ -697,6 +722,18 @@ pub fn regex_templates() -> Vec<Re> {
     ]
 }
 
+/// patterns with zero-width assertions: what they match depends on the text BEFORE the position too
+pub fn regex_assert_templates() -> Vec<Re> {
+    let l = |c| Re::Lit(c);
+    let sq = |v: Vec<Re>| Re::Seq(v);
+    let mut v: Vec<Re> = (0..8u8).map(|a| sq(vec![Re::Assert(a), l('b')])).collect();
+    v.extend((0..8u8).map(|a| sq(vec![Re::Star(Box::new(l('a')), false), Re::Assert(a)])));
+    v.push(sq(vec![Re::Assert(2), Re::Plus(Box::new(Re::Class(vec![('a', 'b')], false)), false), Re::Assert(2)]));
+    v.push(sq(vec![l('a'), Re::Assert(3), l('b')]));
+    v.push(Re::Alt(vec![sq(vec![Re::Assert(0), l('a')]), sq(vec![Re::Assert(3), l('b')]), l(' ')]));
+    v
+}
+
 pub fn run(tier: Tier, seed: u64) -> i32 {
     let ctx = Ctx::new(ID, tier, seed);
     ctx.replay_corpus(&check_case);
@@ -786,7 +823,7 @@ pub fn run(tier: Tier, seed: u64) -> i32 {
     // tier 3: regex templates on every short string, then generated patterns
     let rstrings = all_strings(&['a', 'b', '0', 'e', 'é'], ctx.pick(4, 5));
     let rarena: Vec<String> = rstrings.iter().map(|s| s.iter().collect()).collect();
-    let rjobs: Vec<(Re, u8)> = regex_templates().into_iter().flat_map(|re| (0..3u8).map(move |k| (re.clone(), k))).collect();
+    let rjobs: Vec<(Re, u8)> = regex_templates().into_iter().chain(regex_assert_templates()).flat_map(|re| (0..3u8).map(move |k| (re.clone(), k))).collect();
     ctx.par_jobs(&rjobs, |(re, k), l| {
         let tp = TP::Regex(re.clone(), *k);
         let ps = build_str(&tp);
